@@ -511,7 +511,7 @@ xml_print_anydata(struct xmlpr_ctx *pctx, const struct lyd_node_any *node)
     uint32_t prev_opts, *prev_lo, temp_lo = 0;
     LY_ERR ret;
 
-    if ((node->schema->nodetype == LYS_ANYDATA) && (node->value_type != LYD_ANYDATA_DATATREE)) {
+    if ((node->schema->nodetype == LYS_ANYDATA) && (node->value_type != LYD_ANYDATA_DATATREE) && node->value.str) {
         LOGINT_RET(pctx->ctx);
     }
 
